@@ -64,6 +64,8 @@ CARS = {
     # a car that names the same config base twice in its own list
     "c4": (["B", "A", "B"], {"c": "c4-c"}),
     "c5": (["A", "A"], {}),
+    # a mixin that switches options off by setting them to the empty string: an empty value is a value and overrides like any other
+    "m3": ([], {"b": "", "heap": ""}),
 }
 CORE_CARS = ["c1", "c2", "c3", "m1", "m2"]
 PARAMS = {"heap": "6g", "a": "param-a", "http_port": "2", "data_paths": None}  # data_paths filled per case
@@ -186,6 +188,9 @@ def check_case(variant, names, pkeys, data_mode, preserve, res):
     node_root = os.path.join(work, "node0")
     os.makedirs(work)
     params = {k: PARAMS[k] for k in pkeys}
+    data_mode_full = data_mode
+    data_missing = data_mode.endswith("-missing")
+    data_mode = data_mode.replace("-missing", "")
     ext_data = os.path.join(work, "external-data")
     sibling = os.path.join(node_root, "install", "elasticsearch-8.0.0-data")
     link_target = os.path.join(work, "mounted-disk")
@@ -323,6 +328,9 @@ def check_case(variant, names, pkeys, data_mode, preserve, res):
             if v is None:
                 # cleanup
                 for p in want_data + [ext_data, sibling]:
+                    if data_missing and p in want_data:
+                        shutil.rmtree(p, ignore_errors=True)
+                        continue
                     os.makedirs(p, exist_ok=True)
                     with open(os.path.join(p, "segment.dat"), "w") as f:
                         f.write("data")
@@ -354,13 +362,13 @@ def check_case(variant, names, pkeys, data_mode, preserve, res):
     finally:
         shutil.rmtree(work, ignore_errors=True)
     res.case(
-        case_repr={"base_variant": variant, "cars": list(names), "car_params": params, "data": data_mode, "preserve": preserve} if res.sample_now(997) else None,
-        nontrivial_key=(variant, names, pkeys, data_mode, preserve) if len(names) > 1 or pkeys else None,
+        case_repr={"base_variant": variant, "cars": list(names), "car_params": params, "data": data_mode_full, "preserve": preserve} if res.sample_now(997) else None,
+        nontrivial_key=(variant, names, pkeys, data_mode_full, preserve) if len(names) > 1 or pkeys else None,
         outcome_key=(v[0] if v else "ok", want == "error", len(names), len(pkeys)),
     )
     if v:
-        res.violation(f"team:{v[0]}", f"bases#{variant} cars={list(names)} params={params} data={data_mode} preserve={preserve}: {v[1]}",
-                      {"variant": variant, "names": list(names), "pkeys": list(pkeys), "data": data_mode, "preserve": preserve})
+        res.violation(f"team:{v[0]}", f"bases#{variant} cars={list(names)} params={params} data={data_mode_full} preserve={preserve}: {v[1]}",
+                      {"variant": variant, "names": list(names), "pkeys": list(pkeys), "data": data_mode_full, "preserve": preserve})
 
 
 def cases(tier):
@@ -373,7 +381,8 @@ def cases(tier):
             for ps in subsets:
                 if tier == "quick" and variant > 0 and len(ps) > 1:
                     continue
-                modes = ["sibling", "external", "symlink"] if "data_paths" in ps else ["default"]
+                # "-missing": the node never started, so the data path was never created (Elasticsearch creates it on first start)
+                modes = ["sibling", "external", "symlink", "external-missing"] if "data_paths" in ps else ["default", "default-missing"]
                 for dm in modes:
                     for preserve in (False, True):
                         if preserve and (variant > 0 or len(nl) > 2):
